@@ -9,6 +9,7 @@ import Driver.OpsCmd
 import Driver.OpsGuard
 import Driver.OpsGeom
 import Driver.OpsFar
+import Driver.OpsFill
 open Driver
 
 def opGrid (args : List String) : String :=
@@ -53,6 +54,7 @@ def dispatch (line : String) : String :=
   | "guard" :: r => opGuard r
   | "geom" :: r => opGeom r
   | "far" :: r => opFar r
+  | "fill" :: r => opFill r
   | _ => "bad-op"
 
 partial def loop (h : IO.FS.Stream) (out : IO.FS.Stream) : IO Unit := do
